@@ -240,7 +240,19 @@ def gen_case(rng, max_days):
                     spikes.append(db)
         if spikes:
             T = dt.date.fromisoformat(rng.choice(sorted(set(spikes))))
-    kind = rng.choice(REWRITES)
+    force_kind = None
+    if rng.random() < 0.12 and 'market2' not in cfg:
+        # the cut day is a day on which some file has an open but no close (unadjusted prices): in the world without later
+        # bars that half-filled row is the LAST row of its file
+        cfg['market']['nan_p'] = cfg['market'].get('nan_p') or 0.25
+        cfg['market']['adjust'] = False
+        cfg['market'].pop('adj_round', None)
+        halves = sorted({r_['date'] for rows_ in market.build_rows(cfg['market']).values() for r_ in rows_
+                         if r_['open'] is not None and r_['close'] is None and d0 <= dt.date.fromisoformat(r_['date']) <= d1})
+        if halves:
+            T = dt.date.fromisoformat(rng.choice(halves))
+            force_kind = rng.choice(['remove_all', 'delete'])
+    kind = force_kind or rng.choice(REWRITES)
     if cfg.get('market2') and rng.random() < 0.6:
         kind = rng.choice(['remove_all', 'delete'])      # how far each vendor's files reach differs between the worlds
     return {'cfg': cfg, 'rw': {'T': T.isoformat(), 'kind': kind, 'seed': rng.randint(0, 10 ** 6)}, 'pre': pre}
